@@ -17,6 +17,7 @@ RULE = (
     "3-chunk partitions with a cut in the first 32 bytes for larger ones, all 2^15 compositions of the 16-byte header, byte-by-byte delivery, five exchanges of very different reply lengths on one connection (long, short, fault, medium, empty) with a cut at every header offset of each, and EOF after every "
     "byte offset combined with every 1-2 chunk partition of the delivered prefix; the truncation is ended by a clean FIN and (for the uncut prefix and cuts at 1 / 16) by a read error (timeout, connection reset); FIN delivered together with / one step behind the last segment of a complete reply. Oracle: complete delivery => same outcome (PDU or exception) as unsegmented delivery; "
     "EOF => an ordinary exception after <= 2 EOF reads, inside the step budget. state = (reply, api, cut set, eof offset) schedule; transition = one chunk/EOF delivery. "
+    "Also through the public API: two unprotect calls per process to a mixed-case server whose key-service connection is closed 0/1/9/16/40 octets into its bind_ack or GetKey reply - each call raises after <= 4 connections. The whole check runs under socket.setdefaulttimeout(0.25); the fake socket honours a finite timeout left on it. "
     "Non-trivial = at least one cut or an EOF (the environment deviated from the default answer)."
 )
 ASSUME = ["a read returns between 1 and n available bytes, or EOF; this is what FakeSocket / feed_data model", "the peer sends exactly one reply per client PDU"]
